@@ -86,6 +86,51 @@ func raceF8(t *testing.T) (res raceResult) {
 	return
 }
 
+// F8p: the same window with a poll period configured: the wake-up lost in the window is recovered by the caller's next poll
+// (it re-attempts the delegate every period), so the caller must hold the token one period later.
+func raceF8poll(t *testing.T) (res raceResult) {
+	res.Sig = "blocking:lost-wakeup:not-recovered-at-poll"
+	synctest.Test(t, func(t *testing.T) {
+		g, st := newGated(1)
+		bl := limiter.NewBlockingLimiter(g, time.Second, nil)
+		holder, _ := bl.Acquire(context.Background())
+		g.arm(true, false)
+		type ans struct {
+			l  core.Listener
+			ok bool
+		}
+		done := make(chan ans, 1)
+		ctx, cancel := context.WithCancel(context.Background())
+		go func() { l, ok := bl.Acquire(ctx); done <- ans{l, ok} }()
+		c := <-g.parked
+		g.arm(false, false)
+		holder.OnSuccess()
+		synctest.Wait()
+		close(c)
+		synctest.Wait()
+		time.Sleep(2500 * time.Millisecond) // two poll periods
+		synctest.Wait()
+		select {
+		case a := <-done:
+			if a.ok {
+				a.l.OnIgnore()
+			}
+		default:
+			res.Failed = true
+			res.Detail = fmt.Sprintf("caller still asleep two poll periods after the release, %d/1 tokens held", st.GetBusyCount())
+		}
+		cancel()
+		synctest.Wait()
+		if st.GetBusyCount() == 0 {
+			if h, ok := bl.Acquire(context.Background()); ok {
+				h.OnIgnore()
+			}
+		}
+		synctest.Wait()
+	})
+	return
+}
+
 func queueRace(t *testing.T, sig string, body func(g *gate, st *strategy.PreciseStrategy, q *limiter.QueueBlockingLimiter, points chan chan struct{}, armPoint func(string)) (bool, string)) (res raceResult) {
 	res.Sig = sig
 	synctest.Test(t, func(t *testing.T) {
@@ -211,6 +256,128 @@ func raceF9c(t *testing.T) (res raceResult) {
 
 var extraRace []raceResult
 
+// B1: a blocked BlockingLimiter caller is woken by a release, its re-attempt at the delegate succeeds, and its context is
+// cancelled before the grant is returned to it: whatever Acquire answers, a token held at the delegate must be held by a caller.
+func raceB1(t *testing.T) (res raceResult) {
+	res.Sig = "blocking:token-leak:cancel-during-grant"
+	synctest.Test(t, func(t *testing.T) {
+		g, st := newGated(1)
+		bl := limiter.NewBlockingLimiter(g, 0, nil)
+		holder, _ := bl.Acquire(context.Background())
+		ctx, cancel := context.WithCancel(context.Background())
+		type ans struct {
+			l  core.Listener
+			ok bool
+		}
+		done := make(chan ans, 1)
+		go func() { l, ok := bl.Acquire(ctx); done <- ans{l, ok} }()
+		synctest.Wait()    // the caller sleeps
+		g.arm(false, true) // park it right after its next successful delegate Acquire
+		holder.OnSuccess()
+		c := <-g.parked
+		g.arm(false, false)
+		cancel()
+		synctest.Wait()
+		close(c)
+		synctest.Wait()
+		holders := 0
+		var got core.Listener
+		select {
+		case a := <-done:
+			if a.ok != (a.l != nil) {
+				res.Failed, res.Detail = true, "Acquire returned a listener without ok, or ok without a listener"
+			}
+			if a.ok {
+				holders, got = 1, a.l
+			}
+		default:
+		}
+		if b := st.GetBusyCount(); b != holders {
+			res.Failed = true
+			res.Detail = fmt.Sprintf("%d token(s) held at the delegate, %d caller(s) hold one: the grant that raced with the cancellation was dropped without being released", b, holders)
+		}
+		if got != nil {
+			got.OnIgnore()
+		}
+		synctest.Wait()
+		if st.GetBusyCount() == 0 { // (a leaked token would block this clean-up call for ever)
+			if h, ok := bl.Acquire(context.Background()); ok {
+				h.OnIgnore()
+			}
+		}
+		synctest.Wait()
+	})
+	return
+}
+
+// slowStrategy: SetLimit can be parked (a contended or slow strategy)
+type slowStrategy struct {
+	*strategy.SimpleStrategy
+	mu     sync.Mutex
+	park   bool
+	parked chan chan struct{}
+}
+
+func (s *slowStrategy) SetLimit(n int) {
+	s.mu.Lock()
+	p := s.park
+	s.park = false
+	s.mu.Unlock()
+	if p {
+		c := make(chan struct{})
+		s.parked <- c
+		<-c
+	}
+	s.SimpleStrategy.SetLimit(n)
+}
+
+// U1: two completions close two consecutive sample windows on different goroutines; the first one's SetLimit is slow.  The
+// strategy must end up enforcing the newest estimate (real time, no bubble: the second completion waits on a mutex).
+func raceU1(t *testing.T) (res raceResult) {
+	res.Sig = "default:stale-limit:setlimit-out-of-order"
+	st := &slowStrategy{SimpleStrategy: strategy.NewSimpleStrategy(100), parked: make(chan chan struct{}, 2)}
+	sl := &scriptLimit{est: 100}
+	sl.onSet = func() { sl.est += 10 }
+	l, err := limiter.NewDefaultLimiter(sl, 1, 1, 0, 10, st, nil, core.EmptyMetricRegistryInstance)
+	if err != nil {
+		t.Fatal(err)
+	}
+	var ls []core.Listener
+	for i := 0; i < 22; i++ {
+		x, ok := l.Acquire(context.Background())
+		if !ok {
+			t.Fatal("setup: could not acquire")
+		}
+		ls = append(ls, x)
+	}
+	time.Sleep(2 * time.Millisecond)
+	for i := 0; i < 10; i++ {
+		ls[i].OnSuccess() // 10 samples: the window is not ready yet
+	}
+	st.mu.Lock()
+	st.park = true
+	st.mu.Unlock()
+	var wg sync.WaitGroup
+	wg.Add(2)
+	go func() { defer wg.Done(); ls[10].OnSuccess() }() // 11th sample closes the first window
+	c := <-st.parked                                    // its estimate (110) is on its way into the strategy
+	go func() {
+		defer wg.Done()
+		time.Sleep(time.Millisecond)
+		for i := 11; i < 22; i++ {
+			ls[i].OnSuccess() // 11 more samples close the second window (estimate 120)
+		}
+	}()
+	time.Sleep(60 * time.Millisecond)
+	close(c)
+	wg.Wait()
+	if got, want := st.GetLimit(), l.EstimatedLimit(); got != want {
+		res.Failed = true
+		res.Detail = fmt.Sprintf("after two window updates (estimates 110 then %d) the strategy enforces %d while the algorithm's estimate is %d", want, got, want)
+	}
+	return
+}
+
 // F11: two arrivals both pass the length check before either pushes: the backlog exceeds its bound.
 func raceF11(t *testing.T) raceResult {
 	return queueRace(t, "queue:backlog-over-bound:check-then-push", func(g *gate, st *strategy.PreciseStrategy, q *limiter.QueueBlockingLimiter, points chan chan struct{}, armPoint func(string)) (bool, string) {
@@ -264,7 +431,7 @@ func runRaces(t *testing.T, rep *Report, races ...func(*testing.T) raceResult) {
 func TestC10Races(t *testing.T) {
 	rep := NewReport("C10races")
 	defer rep.Write(t)
-	runRaces(t, rep, raceF8, raceF9a, raceF9b, raceF9c)
+	runRaces(t, rep, raceF8, raceF8poll, raceF9a, raceF9b, raceF9c)
 }
 func TestC12Races(t *testing.T) {
 	rep := NewReport("C12races")
@@ -281,6 +448,12 @@ func TestC02Races(t *testing.T) {
 	rep := NewReport("C02races")
 	defer rep.Write(t)
 	// conservation must survive the race windows (the lost wake-ups themselves belong to C10)
-	raceOnly = []string{"queue:token-leak", "queue:backlog-not-exact"}
-	runRaces(t, rep, raceF9c, raceF9b)
+	raceOnly = []string{"queue:token-leak", "queue:backlog-not-exact", "blocking:token-leak"}
+	runRaces(t, rep, raceF9c, raceF9b, raceB1)
+}
+
+func TestC05Races(t *testing.T) {
+	rep := NewReport("C05races")
+	defer rep.Write(t)
+	runRaces(t, rep, raceU1)
 }
